@@ -341,182 +341,380 @@ def _arm_value(atom, facts, allowed):
     return ok, all(v in allowed for v in ok)
 
 
-def _tabled1(ctx):
+class V:
+    """verdict of one obligation over several paths: a contradiction (False) wins over `not understood` (None) wins over True"""
+
+    def __init__(self):
+        self.v, self.detail, self.node = True, None, None
+
+    def bad(self, detail=None, node=None):
+        if self.v is not False:
+            self.v, self.detail = False, detail
+            self.node = node or self.node
+
+    def unknown(self, detail=None, node=None):
+        if self.v is True:
+            self.v, self.detail = None, detail
+            self.node = node or self.node
+
+    def at(self, node):
+        if self.node is None:
+            self.node = node
+        return self
+
+    def report(self, ctx, inst, default_node, key=None, chk=None):
+        node = self.node or default_node
+        if self.v is None:
+            ctx.error(inst, node, self.detail)
+        else:
+            (chk or ctx.check)(self.v, inst, node, self.detail, key=key)
+
+
+class _Head:
+    """descriptor of a comprehension, shaped like a `for` event"""
+    kind = "comp"
+
+    def __init__(self, comp):
+        self.d = {"iter": comp[2], "target": comp[3], "loop": comp[4]}
+        self.node = None
+        self.facts = ()
+
+
+def s_tokens(v, e):
+    """tokens of a written string value"""
+    if not isinstance(v, S):
+        return [("opaque", v, e)]
+    out = []
+    for x in v.p:
+        if x[0] == "lit":
+            out.append(("lit", x[1], e))
+        elif x[0] == "fv":
+            out.append(("fv", x[1], x[2], e))
+        elif x[0] == "fmt":
+            out.append(("fmt", x[1], x[2], e))
+        elif x[0] == "str":
+            out.append(("str", x[1], e))
+        elif x[0] == "rep":
+            out.append(("rep", s_tokens(x[1], e), x[2], e))
+        elif x[0] == "join":
+            body = s_tokens(x[2][1], e) if isinstance(x[2][1], S) else [("opaque", x[2][1], e)]
+            if x[1]:
+                body = body + [("lit", x[1], e)]
+            out.append(("each", _Head(x[2]), [body], e))
+        else:
+            out.append(("opaque", x, e))
+    return out
+
+
+def stream(events, cur=()):
+    """the output of one path as tokens; loops (and comprehensions) become ("each", head, [alternative bodies])"""
+    toks = []
+    evs = [e for e in events if e.loops[:len(cur)] == cur]
+    i = 0
+    while i < len(evs):
+        e = evs[i]
+        if e.loops == cur:
+            if e.kind == "call" and is_vecwrite(e):
+                toks.append(("vec", e))
+            elif e.kind == "call" and is_write(e):
+                toks.extend(s_tokens(e.d["args"][0], e))
+            i += 1
+            continue
+        L = e.loops[len(cur)]
+        grp = [x for x in evs[i:] if x.loops[:len(cur) + 1] == cur + (L,)]
+        head = next((x for x in grp if x.kind in ("for", "while") and x.d["loop"] == L), None)
+        ends = [x for x in grp if x.kind == "loopend" and x.d["loop"] == L]
+        if len(ends) <= 1:
+            alts = [stream(grp, cur + (L,))]
+        else:
+            alts = [stream([x for x in grp if set(x.facts) <= set(le.facts)], cur + (L,)) for le in ends]
+        if any(alts):
+            toks.append(("each", head, alts, e))
+        i += len(grp)
+    return toks
+
+
+def to_lines(toks):
+    """split a token stream at the newlines of its literals -> (lines, last line terminated?); a vectorised write is a line of its own"""
+    lines = [[]]
+    for t in toks:
+        if t[0] == "lit":
+            segs = t[1].split("\n")
+            for k, sg in enumerate(segs):
+                if k:
+                    lines.append([])
+                if sg:
+                    lines[-1].append(("lit", sg, t[2]))
+        elif t[0] == "vec":
+            if lines[-1]:
+                lines.append([])
+            lines[-1].append(t)
+            lines.append([])
+        else:
+            lines[-1].append(t)
+    term = not lines[-1]
+    if term:
+        lines.pop()
+    return lines, term
+
+
+def _pair_source(args, head, N):
+    """which elements a `form.format(a, b)` inside a loop / comprehension renders: ((base of a, base of b), first index, end index) or None"""
+    if head is None or len(args) != 2:
+        return None
+    it = head.d["iter"]
+    tgt = head.d["target"]
+    bases, los, his = [], [], []
+    for a in args:
+        if not (isinstance(a, tuple) and a[:1] == ("elem",)):
+            return None
+        base, idx = a[1], a[2]
+        if isinstance(base, tuple) and base[:1] == ("slice",) and base[4] == Lin(c=1) and isinstance(it, tuple) and it[:2] == ("op", "zip"):
+            # zip(t[u:], d[u:]) -> element k of the slice
+            end = N if base[3] == ("k", None) else lin(base[3])
+            bases.append(M.origin(base[1]))
+            los.append(lin(base[2]))
+            his.append(end)
+            continue
+        if isinstance(it, tuple) and it[:1] == ("range",) and isinstance(tgt, Lin) and it[3] == Lin(c=1) and isinstance(idx, Lin):
+            c = idx - tgt
+            if any(M.mentions(at, M.lin(tgt).atoms()[0]) for at in c.t):
+                return None
+            bases.append(M.origin(base))
+            los.append(it[1] + c)
+            his.append(it[2] + c)
+            continue
+        return None
+    if len(set(los)) != 1 or len(set(his)) != 1:
+        return None
+    return tuple(bases), los[0], his[0]
+
+
+def _tabled1_analysis(ctx):
+    """per path of wttabled1: the card as lines of tokens, grouped by the rendered width of a pair"""
+    cached = getattr(ctx, "_c13_tabled1", None)
+    if cached is not None:
+        return cached
     fn = ctx.src.func(BULK, "wttabled1")
     E = engine(ctx, BULK, "wttabled1")
     form = ("sym", "form")
     paths = [s for s in E.finals if s.status in ("run", "return")]
     if not paths:
         raise AnchorError("wttabled1: no path reaches the end of the function")
-    # the quantity the guard speaks about: len(form.format(<a pair>))
     atoms = []
     for s in paths:
         for at in flen_atoms(s.facts, "form"):
             if at not in atoms:
                 atoms.append(at)
-    data_events = [e for e in E.events("call") if is_vecwrite(e) or (is_write(e) and isinstance(e.d["args"][0], S)
-                                                                     and any(x[0] == "fmt" and x[1] == form for x in e.d["args"][0].p))]
+    X = atoms[0] if len(atoms) == 1 else ("flen", form, 2)
+    res = {"fn": fn, "E": E, "X": X, "atoms": atoms, "paths": paths, "arms": {}}
+    for pairw in (32, 16):
+        arm = [s for s in paths if M.possible_values(X, s.facts, extra=(16, 32), lo=0)[0] == {pairw}]
+        res["arms"][pairw] = [(s, to_lines(stream(s.events))) for s in arm]
+    ctx._c13_tabled1 = res
+    return res
+
+
+def _is_comment(line):
+    return bool(line) and line[0][0] == "lit" and line[0][1].startswith("$")
+
+
+def _tabled1(ctx):
+    A = _tabled1_analysis(ctx)
+    fn, E, X = A["fn"], A["E"], A["X"]
+    form = ("sym", "form")
+    # ---- the guard
+    g = V()
+    data_events = [e for e in E.events("call") if is_vecwrite(e) or (is_write(e) and isinstance(e.d["args"][0], S) and _renders(e.d["args"][0], form))]
     if not data_events:
         raise AnchorError("wttabled1: writes of `form`-rendered data")
-    X = atoms[0] if len(atoms) == 1 else ("flen", form, 2)
-    ok = len(atoms) == 1 and X[2] == 2
-    bad = None
+    if len(A["atoms"]) > 1 or X[2] != 2:
+        g.unknown({"tested quantities": [show(a) for a in A["atoms"]]})
     for e in data_events:
         vals, fine = _arm_value(X, e.facts, (16, 32))
         if not fine:
-            ok = False
-            bad = bad or (e, sorted(vals))
-    ctx.check(ok, "wttabled1: a user `form` must render a pair in 16 or 32 characters", bad[0].node if bad else fn,
-              None if ok else ({"lengths not excluded before data is written": bad[1][:8]} if bad else "no test of len(form.format(<pair>))"))
+            g.bad({"lengths of form.format(<pair>) not excluded before data is written": sorted(vals)[:8]}, e.node)
+    g.report(ctx, "wttabled1: a user `form` must render a pair in 16 or 32 characters", fn)
     N = lin(("len", ("sym", "t")))
+    endt_all = V()
     for label, pairw, per in (("large field", 32, 2), ("small field", 16, 4)):
-        arm = [s for s in paths if M.possible_values(X, s.facts, extra=(16, 32), lo=0)[0] == {pairw}]
+        arm = A["arms"][pairw]
         if not arm:
             ctx.error(f"wttabled1 [{label}]: no path on which a pair renders in {pairw} characters", fn)
             continue
-        res = {"line": True, "head": True, "inter": True, "left": True, "loop": True, "lasthead": True, "endt": True, "hdr": True}
-        det = {}
-        where = {}
-        seen_vec = False
-        for s in arm:
-            outs = [e for e in s.events if e.kind == "call" and (is_write(e) or is_vecwrite(e))]
-            vec = [e for e in outs if is_vecwrite(e)]
-            u = None
-            if len(vec) > 1:
-                res["line"] = False
-                det["line"] = "more than one vectorised write on a path"
-            for e in vec:
-                seen_vec = True
-                where.setdefault("vec", e.node)
-                _, tmpl, data = vecwrite_parts(e)
-                if not isinstance(tmpl, S):
-                    res["line"] = False
-                    det["line"] = show(tmpl)
-                    continue
-                lines, term = M.split_lines(tmpl.p)
-                lay = [line_layout(ln, pairw) for ln in lines]
-                okl = term and len(lay) == 1 and lay[0]["ok"] and lay[0]["head"] is not None and len(lay[0]["head"]) == 8 and not lay[0]["stray"] \
-                    and lay[0]["fields"] == per and all(w == pairw for w in lay[0]["widths"]) \
-                    and all(it[0] in ("text", "sub") for it in M.template_items(tmpl))
-                if not okl:
-                    res["line"] = False
-                    det["line"] = repr(tmpl)
-                head = lay[0]["head"] if lay and lay[0]["head"] else ""
-                det["headtext"] = head
-                if not (head[:1] in ("*", " ", "+") and (head[:1] == "*") == (pairw == 32)):
-                    res["head"] = False
-                # data arguments: per interleaved strides of t and d with one common upper bound
-                want = []
-                for i in range(per):
-                    want += [("t", i), ("d", i)]
-                got = []
-                ups = set()
-                for a in data:
-                    if isinstance(a, tuple) and a and a[0] == "slice" and M.is_int_const(lin(a[2])) and M.is_int_const(lin(a[4])) \
-                            and M.ival(lin(a[4])) == per and M.origin(a[1])[0] == "sym":
-                        got.append((M.origin(a[1])[1], M.ival(lin(a[2]))))
-                        ups.add(a[3] if not isinstance(a[3], Lin) else a[3])
+        line, head, inter, left, loop, lasthead = V(), V(), V(), V(), V(), V()
+        headtext = ""
+        # where the vectorised write stops (the same extent on every path of the arm)
+        ups = set()
+        nvec = 0
+        for s, (lines, term) in arm:
+            for ln in lines:
+                if ln and ln[0][0] == "vec":
+                    nvec += 1
+                    e = ln[0][1]
+                    line.at(e.node), head.at(e.node), inter.at(e.node)
+                    _, tmpl, data = vecwrite_parts(e)
+                    if not isinstance(tmpl, S):
+                        line.unknown(show(tmpl))
+                        continue
+                    tl, tterm = M.split_lines(tmpl.p)
+                    lay = [line_layout(x, pairw) for x in tl]
+                    plain = all(it[0] in ("text", "sub") and (it[0] == "text" or it[1] == form) for it in M.template_items(tmpl))
+                    if not plain or not all(l_["ok"] for l_ in lay):
+                        line.unknown(repr(tmpl))
+                    elif not (tterm and len(lay) == 1 and lay[0]["head"] is not None and len(lay[0]["head"]) == 8 and not lay[0]["stray"]
+                              and lay[0]["fields"] == per and all(w == pairw for w in lay[0]["widths"])):
+                        line.bad(repr(tmpl))
+                    h = lay[0]["head"] if lay and lay[0]["head"] else ""
+                    headtext = headtext or h
+                    if plain and not (h[:1] in ("*", " ", "+") and (h[:1] == "*") == (pairw == 32)):
+                        head.bad(repr(h))
+                    want = []
+                    for i in range(per):
+                        want += [("t", i), ("d", i)]
+                    got, u_here, understood = [], set(), True
+                    for a in data:
+                        if isinstance(a, tuple) and a[:1] == ("slice",) and M.is_int_const(lin(a[2])) and M.is_int_const(lin(a[4])) and M.origin(a[1])[:1] == ("sym",):
+                            got.append((M.origin(a[1])[1], M.ival(lin(a[2])), M.ival(lin(a[4]))))
+                            u_here.add(a[3])
+                        else:
+                            understood = False
+                            got.append(show(a))
+                    if not understood:
+                        inter.unknown([str(x) for x in got])
+                    elif [(b_, lo_) for b_, lo_, _ in got] != want or any(st_ != per for _, _, st_ in got) or len(u_here) != 1:
+                        inter.bad([str(x) for x in got])
                     else:
-                        got.append(show(a))
-                if got != want or len(ups) != 1:
-                    res["inter"] = False
-                    det["inter"] = [str(g) for g in got]
-                elif isinstance(next(iter(ups)), Lin):
-                    u = next(iter(ups))
-                    # equal lengths of the strided vectors need per | u
-                    lo_, hi_ = M.bounds(M.mod(u, per), e.facts)
-                    if not (lo_ == 0 and hi_ == 0):
-                        res["inter"] = False
-                        det["inter"] = f"upper bound {show(u)} is not a multiple of {per}"
-                else:
-                    res["inter"] = False
-                    det["inter"] = "upper bound of the slices: " + show(next(iter(ups)))
-            # leftover loop
-            loops = [e for e in s.events if e.kind == "for"]
-            lp = None
-            for e in loops:
-                it = e.d["iter"]
-                if isinstance(it, tuple) and it and it[0] == "range":
-                    lp = e
-            if lp is None:
-                res["loop"] = False
-                det["loop"] = "no loop over the leftover pairs"
-            else:
-                where.setdefault("loop", lp.node)
-                it = lp.d["iter"]
-                lo_, hi_ = it[1], it[2]
-                if u is None:
-                    u_here = lo_
-                else:
-                    u_here = u
-                okr = lo_ == u_here and hi_ == N and it[3] == Lin(c=1)
-                j = lp.d["target"]
-                inner = [e for e in outs if lp.d["loop"] in e.loops and is_write(e)]
-                okw = len(inner) == 1 and isinstance(inner[0].d["args"][0], S) and len(inner[0].d["args"][0].p) == 1
-                if okw:
-                    x = inner[0].d["args"][0].p[0]
-                    okw = x[0] == "fmt" and x[1] == form and len(x[2]) == 2 and all(
-                        isinstance(a, tuple) and a and a[0] == "elem" and a[2] == j and M.origin(a[1]) == ("sym", nm) for a, nm in zip(x[2], ("t", "d")))
-                if not (okr and okw):
-                    res["loop"] = False
-                    det["loop"] = {"range": show(it), "write": [show(e.d["args"][0]) for e in inner]}
-                # leftover count: npts - u in 0..per-1  (u: where the vectorised write stops = where the loop starts)
-                left = N - lo_
-                blo, bhi = M.bounds(left, lp.facts[:0] + tuple(f for f in lp.facts if not M.mentions(f[0], the_atom(j) if isinstance(j, Lin) else j)))
-                if not (blo is not None and bhi is not None and blo >= 0 and bhi <= per - 1):
-                    w = M.find_witness([("len", ("sym", "t"))], s.facts, lambda a: not (0 <= M.lin_eval(left, a) <= per - 1), ranges={("len", ("sym", "t")): (1, 48)})
-                    res["left"] = False
-                    det["left"] = {"leftover pairs range": [str(blo), str(bhi)], "start of the leftover loop": show(lo_),
-                                   "witness": {show(k): v for k, v in w.items()} if w else None}
-                    if w is None and (blo is None or bhi is None):
-                        det["left"]["undecided"] = True
-                where.setdefault("rows", lp.node)
-            # head of the last line: the write just before the leftover pairs
-            plain = [e for e in outs if is_write(e) and not e.loops]
-            pre = [e for e in plain if lp is not None and e.seq < lp.seq and (not vec or e.seq > vec[-1].seq)]
-            if vec:
-                cand = pre
-            else:
-                cand = pre[-1:] if pre else []
-            okh = len(cand) == 1 and isinstance(cand[0].d["args"][0], S) and cand[0].d["args"][0].text() is not None \
-                and len(cand[0].d["args"][0].text()) == 8 and (cand[0].d["args"][0].text()[:1] == "*") == (pairw == 32) \
-                and cand[0].d["args"][0].text()[:1] in ("*", " ", "+")
-            if not okh:
-                res["lasthead"] = False
-                det["lasthead"] = [show(e.d["args"][0]) for e in cand]
-            elif cand:
-                where.setdefault("lasthead", cand[0].node)
-            # ENDT closes the table
-            last = outs[-1] if outs else None
-            if not (last is not None and is_write(last) and isinstance(last.d["args"][0], S) and last.d["args"][0].text() == "ENDT\n" and not last.loops):
-                res["endt"] = False
-            elif last is not None:
-                where.setdefault("endt", last.node)
-        if not seen_vec:
+                        u = next(iter(u_here))
+                        if not isinstance(u, Lin):
+                            inter.unknown("upper bound of the slices: " + show(u))
+                        else:
+                            ups.add(u)
+                            lo_, hi_ = M.bounds(M.mod(u, per), e.facts)
+                            if not (lo_ == 0 and hi_ == 0):
+                                w = M.find_witness([("len", ("sym", "t"))], e.facts, lambda a_, u=u: M.lin_eval(M.mod(u, per), a_) not in (None, 0),
+                                                   ranges={("len", ("sym", "t")): (1, 48)})
+                                if w is not None:
+                                    inter.bad({"upper bound": show(u), "not a multiple of the stride for": {show(k): v for k, v in w.items()}})
+                                else:
+                                    inter.unknown(f"upper bound {show(u)} is not shown to be a multiple of {per}")
+        if nvec == 0:
             ctx.error(f"wttabled1 [{label}]: vecwrite call", fn)
             continue
-        vnode = where.get("vec", fn)
-        ctx.check(res["line"], f"wttabled1 [{label}]: each full line is an 8-column head + {per} pairs of {pairw} = 72 columns", vnode, det.get("line"))
-        ctx.check(res["head"], f"wttabled1 [{label}]: continuation head `{det.get('headtext', '')}` is the one the reader expects for this field width", vnode)
-        ctx.check(res["inter"], f"wttabled1 [{label}]: the vectorised write interleaves t and d with stride {per}", vnode, det.get("inter"))
-        if res["left"] is False and isinstance(det.get("left"), dict) and det["left"].get("undecided"):
-            ctx.error(f"wttabled1 [{label}]: range of the leftover pairs", where.get("rows", fn), det["left"])
+        u = next(iter(ups)) if len(ups) == 1 else None
+        for s, (lines, term) in arm:
+            body = [ln for ln in lines if not _is_comment(ln)]
+            if not body or not term:
+                endt_all.unknown("output does not end with a newline")
+                continue
+            last = body[-1]
+            # ENDT closes the table
+            if last and last[-1][0] == "lit" and last[-1][1].endswith("ENDT"):
+                endt_all.at(last[-1][2].node)
+                tail = last[-1][1][:-4]
+                rest = last[:-1] + ([("lit", tail, last[-1][2])] if tail else [])
+            elif any(t_[0] in ("opaque", "str") for t_ in last):
+                endt_all.unknown("last line: " + _show_line(last))
+                rest = None
+            else:
+                endt_all.bad("last line: " + _show_line(last), last[-1][2].node if last and len(last[-1]) > 2 and hasattr(last[-1][2], "node") else None)
+                rest = last
+            if rest is None:
+                continue
+            # head of the last line
+            if rest and rest[0][0] == "lit":
+                h = rest[0][1]
+                lasthead.at(rest[0][2].node)
+                if not (len(h) == 8 and h[:1] in ("*", " ", "+") and (h[:1] == "*") == (pairw == 32)):
+                    lasthead.bad(repr(h))
+                rest = rest[1:]
+            elif rest and rest[0][0] in ("opaque", "str"):
+                lasthead.unknown(_show_line(rest))
+                continue
+            else:
+                lasthead.bad("the last line has no literal head: " + _show_line(rest))
+            # the leftover pairs
+            if len(rest) > 1 or (rest and rest[0][0] != "each"):
+                loop.unknown(_show_line(rest))
+                continue
+            if not rest:
+                # nothing but the head and ENDT on this path: there must be nothing left
+                if u is None:
+                    loop.unknown("no leftover loop")
+                else:
+                    lo_, hi_ = M.bounds(N - u, s.facts)
+                    if not (lo_ == 0 and hi_ == 0):
+                        loop.bad({"no leftover pairs are written but": f"{show(N - u)} can be left"})
+                continue
+            each = rest[0]
+            hd, alts = each[1], each[2]
+            if hd is not None and getattr(hd, "node", None) is not None:
+                loop.at(hd.node), left.at(hd.node)
+            if len(alts) != 1 or len(alts[0]) != 1 or alts[0][0][0] != "fmt" or alts[0][0][1] != form:
+                loop.unknown(_show_line(rest))
+                continue
+            ps = _pair_source(alts[0][0][2], hd, N)
+            if ps is None:
+                loop.unknown(_show_line(rest))
+                continue
+            bases, lo_, hi_ = ps
+            if bases != (("sym", "t"), ("sym", "d")):
+                loop.bad({"rendered": [show(b_) for b_ in bases]})
+            if hi_ != N:
+                loop.bad({"the loop ends at": show(hi_), "number of points": show(N)})
+            if u is not None and lo_ != u:
+                loop.bad({"the loop starts at": show(lo_), "the vectorised write stops at": show(u)})
+            # leftover count: npts - (start of the loop) in 0..per-1
+            lft = N - lo_
+            facts = tuple(f for f in s.facts)
+            blo, bhi = M.bounds(lft, facts)
+            if not (blo is not None and bhi is not None and blo >= 0 and bhi <= per - 1):
+                w = M.find_witness([("len", ("sym", "t"))], facts, lambda a_, lft=lft: not (0 <= M.lin_eval(lft, a_) <= per - 1), ranges={("len", ("sym", "t")): (1, 48)})
+                if w is not None:
+                    left.bad({"leftover pairs range": [str(blo), str(bhi)], "start of the leftover loop": show(lo_), "witness": {show(k): v for k, v in w.items()}})
+                else:
+                    left.unknown({"leftover pairs": show(lft), "range proved": [str(blo), str(bhi)]})
+        line.report(ctx, f"wttabled1 [{label}]: each full line is an 8-column head + {per} pairs of {pairw} = 72 columns", fn)
+        head.report(ctx, f"wttabled1 [{label}]: continuation head `{headtext}` is the one the reader expects for this field width", fn)
+        inter.report(ctx, f"wttabled1 [{label}]: the vectorised write interleaves t and d with stride {per}", fn)
+        left.report(ctx, f"wttabled1 [{label}]: after the full lines 0..{per - 1} pairs remain, so the pairs and ENDT fit in the {per * 2} fields of the last line", fn)
+        loop.report(ctx, f"wttabled1 [{label}]: the leftover pairs r..npts-1 are written one by one on the last line", fn)
+        lasthead.report(ctx, f"wttabled1 [{label}]: the last line starts with an 8-column head legal for this field width", fn)
+    endt_all.report(ctx, "wttabled1: ENDT closes the table", fn)
+
+
+def _renders(v, form):
+    for x in v.p:
+        if x[0] == "fmt" and x[1] == form:
+            return True
+        if x[0] == "join" and isinstance(x[2][1], S) and _renders(x[2][1], form):
+            return True
+    return False
+
+
+def _show_line(toks):
+    out = []
+    for t in toks:
+        if t[0] == "lit":
+            out.append(repr(t[1]))
+        elif t[0] == "fv":
+            out.append("{" + show(t[2]) + ":" + (t[1] or "") + "}")
+        elif t[0] == "fmt":
+            out.append(show(t[1]) + ".format(" + ", ".join(show(a) for a in t[2]) + ")")
+        elif t[0] == "each":
+            out.append("each(" + (show(t[1].d["iter"]) if t[1] is not None else "?") + ": " + " | ".join(_show_line(a) for a in t[2]) + ")")
+        elif t[0] == "vec":
+            out.append("<vecwrite>")
         else:
-            ctx.check(res["left"], f"wttabled1 [{label}]: after the full lines 0..{per - 1} pairs remain, so the pairs and ENDT fit in the {per * 2} fields of the last line",
-                      where.get("rows", fn), det.get("left"))
-        ctx.check(res["loop"], f"wttabled1 [{label}]: the leftover pairs r..npts-1 are written one by one on the last line", where.get("loop", fn), det.get("loop"))
-        ctx.check(res["lasthead"], f"wttabled1 [{label}]: the last line starts with an 8-column head legal for this field width", where.get("lasthead", fn),
-                  det.get("lasthead"))
-        yield label, res["endt"], where.get("endt", fn)
+            out.append(show(t[1]))
+    return " ".join(out)
 
 
 def r1_templates(ctx):
     once = _Once(ctx)
     _width_obligations(ctx, once)
     # ---- wttabled1: line templates are 8 + 64 columns and the user `form` is validated
-    endt = list(_tabled1(ctx))
-    ok = bool(endt) and all(x[1] for x in endt)
-    ctx.check(ok, "wttabled1: ENDT closes the table", endt[0][2] if endt else ctx.src.func(BULK, "wttabled1"))
+    _tabled1(ctx)
     # ---- wtgrids templates: 8 + n*W with W validated
     _grids(ctx, once)
 
@@ -534,40 +732,61 @@ def _grids(ctx, once):
             if at not in atoms:
                 atoms.append(at)
     X = atoms[0] if len(atoms) == 1 else ("flen", form, 1)
-    okg = len(atoms) == 1 and X[2] == 1
-    bad = None
+    g = V()
+    if len(atoms) > 1 or X[2] != 1:
+        g.unknown({"tested quantities": [show(a_) for a_ in atoms]})
+
+    def chk(ok, inst, where, detail=None, key=None):
+        return once.check(ok, inst, where, detail, key=key)
     for e in vec:
         vals, fine = _arm_value(X, e.facts, (8, 16))
         if not fine:
-            okg = False
-            bad = bad or (e, sorted(vals))
+            g.bad({"lengths of form.format(x) not excluded before data is written": sorted(vals)[:8]}, e.node)
             continue
         _, tmpl, data = vecwrite_parts(e)
         if not isinstance(tmpl, S):
             ctx.error("wtgrids: template shape", e.node, show(tmpl))
             continue
-        if len(vals) != 1:
-            ctx.error("wtgrids: field width of a template", e.node, {"possible lengths of form.format(x)": sorted(vals), "template": repr(tmpl)})
-            continue
-        Wf = next(iter(vals))
+        if not vals:
+            continue            # the tests passed on the way contradict each other: the call cannot be reached
         lines, term = M.split_lines(tmpl.p)
+        known = all(it[0] in ("text", "field") or (it[0] == "sub" and it[1] == form) for it in M.template_items(tmpl))
+        if not known:
+            ctx.error("wtgrids: template shape", e.node, repr(tmpl))
+            continue
         if not term or not lines:
-            once.check(False, f"wtgrids: template {tmpl!r} ends its last line", e.node, key=f"wtgrids-nl|{tmpl!r}")
+            chk(False, f"wtgrids: template {tmpl!r} ends its last line", e.node, key=f"wtgrids-nl|{tmpl!r}")
             continue
         for i, ln in enumerate(lines):
-            lay = line_layout(ln, Wf)
-            head = lay["head"] or ""
+            ok, detail, lay0 = True, None, None
+            for Wf in sorted(vals):
+                lay = line_layout(ln, Wf)
+                lay0 = lay0 or lay
+                head = lay["head"] or ""
+                W = 16 if "*" in head else 8
+                per = 4 if W == 16 else 8
+                if not lay["ok"]:
+                    ok = None
+                    break
+                if not (len(head) == 8 and not lay["stray"] and lay["fields"] <= per and all(w == W for w in lay["widths"])):
+                    ok = False
+                    detail = dict({k: (v if k != "widths" else [str(w) for w in v]) for k, v in lay.items()}, **{"when form renders in": Wf})
+                    break
+            head = lay0["head"] or ""
             W = 16 if "*" in head else 8
             per = 4 if W == 16 else 8
-            ok = lay["ok"] and len(head) == 8 and not lay["stray"] and lay["fields"] <= per and all(w == W for w in lay["widths"])
-            once.check(ok, f"wtgrids: line `{head}` has an 8-column head and {lay['fields']} <= {per} fields of width {W}", e.node,
-                       None if ok else {k: (v if k != "widths" else [str(w) for w in v]) for k, v in lay.items()}, key=f"wtgrids-line|{tmpl!r}|{i}")
+            inst = f"wtgrids: line `{head}` has an 8-column head and {lay0['fields']} <= {per} fields of width {W}"
+            if ok is None:
+                if f"wtgrids-line|{tmpl!r}|{i}" not in once.seen:
+                    once.seen.add(f"wtgrids-line|{tmpl!r}|{i}")
+                    ctx.error(inst, e.node, repr(tmpl))
+                continue
+            chk(ok, inst, e.node, detail, key=f"wtgrids-line|{tmpl!r}|{i}")
         nf = M.count_fields(M.template_items(tmpl), {form: 1})
         ok = nf is not None and nf == Lin(c=len(data))
-        once.check(ok, f"wtgrids: the template starting `{(line_layout(lines[0], Wf)['head'] or '')}` ({len(lines)} line(s)) consumes exactly the {len(data)} vectors passed",
-                   e.node, None if ok else {"fields": show(nf) if nf is not None else None, "vectors": len(data)}, key=f"wtgrids-args|{tmpl!r}")
-    ctx.check(okg, "wtgrids: a user `form` must render in 8 or 16 characters", bad[0].node if bad else fn,
-              None if okg else ({"lengths not excluded before data is written": bad[1][:8]} if bad else "no test of len(form.format(x))"))
+        chk(ok, f"wtgrids: the template starting `{(line_layout(lines[0], 8)['head'] or '')}` ({len(lines)} line(s)) consumes exactly the {len(data)} vectors passed",
+            e.node, None if ok else {"fields": show(nf) if nf is not None else None, "vectors": len(data)}, key=f"wtgrids-args|{tmpl!r}")
+    g.report(ctx, "wtgrids: a user `form` must render in 8 or 16 characters", fn)
 
 
 # ====================================================================================================================== R2
@@ -718,89 +937,105 @@ def r3_reader_strides(ctx):
     fn = ctx.src.func(BULK, "rdtabled1")
     E = engine(ctx, BULK, "rdtabled1")
     stores = [e for e in E.events("store") if e.loops]
-    ok = False
-    detail = None
+    v = V()
+    if not stores:
+        v.unknown("no table is stored inside the loop over the cards")
     for e in stores:
+        v.at(e.node)
         cols = _columns(e.d["value"])
-        if cols is None or len(cols) != 2:
-            detail = show(e.d["value"])
+        if cols is None or len(cols) != 2 or not all(isinstance(c, tuple) and c[:1] == ("slice",) for c in cols):
+            v.unknown(show(e.d["value"]))
             continue
         a, b = cols
-        good = all(isinstance(c, tuple) and c and c[0] == "slice" for c in (a, b)) and a[1] == b[1] \
-            and a[2] == Lin(c=8) and b[2] == Lin(c=9) and a[3] == Lin(c=-1) == b[3] and a[4] == Lin(c=2) == b[4]
+        good = a[1] == b[1] and a[2] == Lin(c=8) and b[2] == Lin(c=9) and a[3] == Lin(c=-1) == b[3] and a[4] == Lin(c=2) == b[4]
+        if not good:
+            v.bad([show(c) for c in cols])
+            continue
         # the vector sliced is the card of the table the result is stored under
-        src = a[1] if good else None
-        good = good and isinstance(src, tuple) and src[0] == "elem" and src[1] == e.d["base"] and src[2] == e.d["index"]
-        ok = ok or good
-        detail = None if good else [show(c) for c in cols]
-    ctx.check(ok, "rdtabled1: abscissae are fields 8,10,... and ordinates fields 9,11,... up to (not including) the final ENDT field", stores[0].node if stores else fn, detail)
+        src = a[1]
+        if not (isinstance(src, tuple) and src[:1] == ("elem",) and src[2] == e.d["index"]):
+            v.unknown({"sliced": show(src), "stored under": show(e.d["index"])})
+    v.report(ctx, "rdtabled1: abscissae are fields 8,10,... and ordinates fields 9,11,... up to (not including) the final ENDT field", fn)
     # ---- writer side: the header occupies card fields 0..7, so the first pair is field 8
-    Ew = engine(ctx, BULK, "wttabled1")
-    form = ("sym", "form")
-    paths = [s for s in Ew.finals if s.status in ("run", "return")]
-    atoms = []
-    for s in paths:
-        for at in flen_atoms(s.facts, "form"):
-            if at not in atoms:
-                atoms.append(at)
-    X = atoms[0] if len(atoms) == 1 else ("flen", form, 2)
+    A = _tabled1_analysis(ctx)
     for pairw in (32, 16):
-        arm = [s for s in paths if M.possible_values(X, s.facts, extra=(16, 32), lo=0)[0] == {pairw}]
         W = pairw // 2
-        okh, node, det = bool(arm), None, None
-        for s in arm:
-            outs = [e for e in s.events if e.kind == "call" and (is_write(e) or is_vecwrite(e))]
-            hdr = [e for e in outs if is_write(e) and isinstance(e.d["args"][0], S) and any(x[0] == "fv" and x[2] == ("sym", "tid") for x in e.d["args"][0].p)]
-            if len(hdr) != 1:
-                okh, det = False, "header write"
+        h = V()
+        if not A["arms"][pairw]:
+            h.unknown("no path for this field width")
+        for s, (lines, term) in A["arms"][pairw]:
+            body = [ln for ln in lines if not _is_comment(ln)]
+            # the card starts with the line that holds the table id
+            if not body or not any(t_[0] == "fv" and t_[2] == ("sym", "tid") for t_ in body[0]):
+                h.unknown("first line: " + (_show_line(body[0]) if body else ""))
                 continue
-            node = node or hdr[0].node
-            # nothing but comments before it, data right after it
-            before = [e for e in outs if e.seq < hdr[0].seq]
-            if any(not (is_write(e) and isinstance(e.d["args"][0], S) and (e.d["args"][0].p[:1] or (("", ""),))[0][0] == "lit"
-                        and e.d["args"][0].p[0][1].startswith("$")) for e in before):
-                okh, det = False, "output before the header card"
-            lines, term = M.split_lines(hdr[0].d["args"][0].p)
-            lay = [line_layout(ln, None) for ln in lines]
+            first = body[0]
+            h.at(first[0][-1].node if hasattr(first[0][-1], "node") else None)
+            widths = []
+            for t_ in first:
+                sp = M.parse_spec(t_[1]) if t_[0] == "fv" and t_[1] is not None else None
+                widths.append(sp.width if sp is not None else None)
+            if None in widths:
+                h.unknown(_show_line(first))
+                continue
+            if widths != [8, W]:
+                h.bad({"first line": _show_line(first), "field widths": widths})
+                continue
+            # blank continuation lines until the card has 8 fields, then data
             per_line = 64 // W
-            good = term and len(lines) * per_line == 8 and lay[0]["widths"] == [8, W] and not lay[0]["stray"] and lay[0]["head"] is None \
-                and all(l_["fields"] == 0 and not l_["stray"] and l_["head"] in ("*", "+", "*       ", "+       ") for l_ in lay[1:])
-            if not good:
-                okh, det = False, repr(hdr[0].d["args"][0])
-        ctx.check(okh, "wttabled1: the header card line holds only name + id, so the first pair starts field 8 (second line)", node or Ew.fn, det)
+            k = 1
+            while k < len(body) and len(body[k]) == 1 and body[k][0][0] == "lit" and body[k][0][1].rstrip() in ("*", "+") and k * per_line < 8:
+                k += 1
+            if k * per_line != 8:
+                h.bad({"header lines": [_show_line(x) for x in body[:k]], "fields before the first pair": k * per_line})
+        h.report(ctx, "wttabled1: the header card line holds only name + id, so the first pair starts field 8 (second line)", A["fn"])
     # ---- rdgrids pads to 8 columns; wtgrids writes at most 8 fields after the name
     fn = ctx.src.func(BULK, "rdgrids")
     E = engine(ctx, BULK, "rdgrids")
     rets = [e for e in E.events("return")]
-    ok, det = bool(rets), None
+    g = V()
     padded = 0
     for e in rets:
-        v = e.d["value"]
-        if v == ("k", None):
+        v_ = e.d["value"]
+        if v_ == ("k", None):
             continue
-        if isinstance(v, tuple) and v and v[0] == "op" and v[1] in ("np.hstack", "np.concatenate", "np.column_stack") and isinstance(v[2][0], tuple) and v[2][0][:1] == ("tuple",) \
-                and len(v[2][0][1]) == 2:
-            base, pad = v[2][0][1]
+        if isinstance(v_, tuple) and v_[:1] == ("op",) and v_[1] in ("np.hstack", "np.concatenate", "np.column_stack") and isinstance(v_[2][0], tuple) \
+                and v_[2][0][:1] == ("tuple",) and len(v_[2][0][1]) == 2:
+            base, pad = v_[2][0][1]
             nc = lin(("dim", M.origin(base), 1))
-            good = isinstance(pad, tuple) and pad[:2] == ("op", "np.zeros") and isinstance(pad[2][0], tuple) and pad[2][0][:1] == ("tuple",) and len(pad[2][0][1]) == 2
-            if good:
-                r, c = pad[2][0][1]
-                good = lin(r) == lin(("len", M.origin(base))) and (nc + lin(c)) == Lin(c=8)
-                lo, hi = M.bounds(nc, e.facts)
-                good = good and hi is not None and hi <= 7
-            if v[1] == "np.concatenate":
-                good = good and len(v) > 3 and dict(v[3]).get("axis") == Lin(c=1)
-            padded += bool(good)
-            if not good:
-                ok, det = False, show(v)
+            if not (isinstance(pad, tuple) and pad[:2] == ("op", "np.zeros") and isinstance(pad[2][0], tuple) and pad[2][0][:1] == ("tuple",) and len(pad[2][0][1]) == 2):
+                g.unknown(show(v_))
+                continue
+            if v_[1] == "np.concatenate" and not (len(v_) > 3 and dict(v_[3]).get("axis") == Lin(c=1)):
+                g.unknown(show(v_))
+                continue
+            r, c = pad[2][0][1]
+            if lin(r) != lin(("len", M.origin(base))):
+                g.unknown({"rows of the padding": show(r)})
+                continue
+            tot = nc + lin(c)
+            if tot != Lin(c=8):
+                (g.bad if tot.is_const() or not M.free_symbols(tot - nc) else g.unknown)({"columns after padding": show(tot)})
+                continue
+            lo, hi = M.bounds(nc, e.facts)
+            if not (hi is not None and hi <= 7):
+                g.unknown({"padding is applied when the card has": f"{lo}..{hi} columns"})
+                continue
+            padded += 1
         else:
             # returned unchanged: only when it already has at least 8 columns
-            nc = lin(("dim", M.origin(v), 1))
+            nc = lin(("dim", M.origin(v_), 1))
             lo, hi = M.bounds(nc, e.facts)
             if not (lo is not None and lo >= 8):
-                ok, det = False, {"returned without padding": show(v), "columns proved": [str(lo), str(hi)]}
-    ok = ok and padded >= 1
-    ctx.check(ok, "rdgrids pads short GRID cards to 8 columns", fn, det)
+                vals, _ = M.possible_values(("dim", M.origin(v_), 1), e.facts, extra=(8,), lo=0)
+                short = sorted(x for x in vals if x < 8)
+                if short and any(M.mentions(t, ("dim", M.origin(v_), 1)) for t, _ in e.facts):
+                    g.bad({"returned without padding": show(v_), "possible number of columns": short[:4]})
+                else:
+                    g.unknown({"returned without padding": show(v_), "columns proved": [str(lo), str(hi)]})
+    if g.v is True and padded < 1:
+        g.unknown("no padded return value")
+    g.report(ctx, "rdgrids pads short GRID cards to 8 columns", fn)
     # ---- DMIG: the writer's symmetry test must match the reader's mirror (plain transpose, no conjugation)
     _dmig(ctx)
 
@@ -811,117 +1046,132 @@ def _dmig(ctx):
     # reader: every store of an entry under form == 6 has a mirrored store of the same value
     rd = ctx.src.func(BULK, "rddmig._cards_to_df")
     Er = engine(ctx, BULK, "rddmig._cards_to_df")
-    stores = [e for e in Er.events("store") if e.d["name"] == "mat" or (isinstance(e.d["index"], tuple) and e.d["index"][:1] == ("tuple",) and len(e.d["index"][1]) == 2)]
-    stores = [e for e in stores if isinstance(e.d["index"], tuple) and e.d["index"][:1] == ("tuple",) and len(e.d["index"][1]) == 2]
+    stores = [e for e in Er.events("store") if isinstance(e.d["index"], tuple) and e.d["index"][:1] == ("tuple",) and len(e.d["index"][1]) == 2 and len(e.loops) >= 2]
 
     def form6(facts):
         for t, pol in facts:
             if isinstance(t, tuple) and t[:2] == ("cmp", "Eq") and Lin(c=6) in t[2:] and pol:
                 return True
         return False
-    prim = [e for e in stores if not form6(e.facts) or not any(
-        p.d["index"][1] == e.d["index"][1][::-1] and p.d["value"] == e.d["value"] and p.seq < e.seq and p.loops == e.loops for p in stores)]
-    mir = [e for e in stores if e not in prim]
-    plain = bool(prim) and bool(mir)
-    # the quantity compared with 6 (the form read from the header card)
+    swapped = lambda e, p_: p_.d["index"][1] == e.d["index"][1][::-1] and p_.loops == e.loops and p_.d["base"] == e.d["base"]
+    mir = [e for e in stores if form6(e.facts) and any(swapped(e, p_) and p_.seq < e.seq for p_ in stores)]
+    prim = [e for e in stores if e not in mir]
+    v = V()
+    if not prim or not mir:
+        v.unknown({"stores": [(show(e.d["index"]), show(e.d["value"])) for e in stores][:6]})
     forms = {x for e in mir for t, pol in e.facts if pol and isinstance(t, tuple) and t[:2] == ("cmp", "Eq") and Lin(c=6) in t[2:] for x in t[2:] if x != Lin(c=6)}
-    # every primary store that can be reached with form == 6 has its mirror on the same paths
-    for p in prim:
-        if forms and any(_excludes(p.facts, x, 6) for x in forms):
+    for e in mir:
+        v.at(e.node)
+        ps = [p_ for p_ in prim if swapped(e, p_) and p_.seq < e.seq and set(p_.facts) <= set(e.facts)]
+        if ps and not any(p_.d["value"] == e.d["value"] or e.d["value"] == ("elem", p_.d["base"], p_.d["index"]) for p_ in ps):
+            v.bad({"entry": show(ps[-1].d["value"]), "mirrored as": show(e.d["value"])}, e.node)
+    for p_ in prim:
+        if forms and any(_excludes(p_.facts, x, 6) for x in forms):
             continue
-        ms = [e for e in mir if e.d["index"][1] == p.d["index"][1][::-1] and e.d["value"] == p.d["value"] and e.loops == p.loops]
-        if not ms:
-            plain = False
-    ctx.check(plain, "rddmig: a form-6 entry (i, j) is mirrored to (j, i) unchanged (plain symmetry)", mir[0].node if mir else rd,
-              None if plain else {"stores": [(show(e.d["index"]), show(e.d["value"])) for e in stores][:8]})
+        if not any(swapped(e, p_) for e in mir):
+            v.unknown({"entry without a mirror store": show(p_.d["index"])}, p_.node)
+    v.report(ctx, "rddmig: a form-6 entry (i, j) is mirrored to (j, i) unchanged (plain symmetry)", rd)
     # writer: form 6 only under a test that the matrix equals its plain transpose
     asg = [e for e in E.events("assign") if e.d["name"] == "form" and e.d["value"] == Lin(c=6)]
+    inst = ("wtdmig: a matrix is written as form 6 (half storage) only if it equals its plain transpose - the reader mirrors "
+            "without conjugation")
     if not asg:
         ctx.error("wtdmig: symmetric (form 6) test", wd)
     else:
-        verdict, det, node = True, None, asg[0].node
+        v = V()
         for e in asg:
-            found = None
-            for t, pol in e.facts:
-                r = _symmetry_test(ctx, t, pol, E)
-                if r is not None:
-                    found = r if found is None or r[0] is not True else found
-                    if r[0] is True:
-                        found = r
-                        break
-            if found is None:
-                verdict, det = None, "no test of the matrix against its transpose dominates `form = 6`"
-            elif found[0] is False:
-                verdict, det = False, found[1]
-                node = found[2] if len(found) > 2 and found[2] is not None else node
-            elif found[0] is None and verdict is True:
-                verdict, det = None, found[1]
-        inst = ("wtdmig: a matrix is written as form 6 (half storage) only if it equals its plain transpose - the reader mirrors "
-                "without conjugation")
-        if verdict is None:
-            ctx.error(inst, node, det)
-        else:
-            ctx.check(verdict, inst, node, det)
+            v.at(e.node)
+            res = [r for r in (_symmetry_test(ctx, t, pol, E) for t, pol in e.facts) if r is not None]
+            if any(r[0] is True for r in res):
+                continue
+            bad = [r for r in res if r[0] is False]
+            if bad:
+                v.bad(bad[0][1], bad[0][2] if len(bad[0]) > 2 and bad[0][2] is not None else e.node)
+            elif res:
+                v.unknown(res[0][1])
+            else:
+                v.unknown("no test of the matrix against its transpose dominates `form = 6`")
+        v.report(ctx, inst, wd)
     # wtdmig: start row of the lower triangle
     fors = [e for e in E.events("for")]
     rows = [e for e in fors if len(e.loops) >= 3 and isinstance(e.d["iter"], tuple) and e.d["iter"][:1] == ("range",)]
-    ok, det = bool(rows), None
+    v = V()
     seen6 = seen_other = False
     for e in rows:
+        v.at(e.node)
         outer = [f for f in fors if f.d["loop"] == e.loops[-2]]
         col = outer[0].d["target"] if outer else None
         it = e.d["iter"]
         formv = None
-        for a in reversed([x for x in E.events("assign") if x.d["name"] == "form" and x.seq < e.seq and set(x.facts) <= set(e.facts)]):
-            formv = a.d["value"]
+        for a_ in reversed([x for x in E.events("assign") if x.d["name"] == "form" and x.seq < e.seq and set(x.facts) <= set(e.facts)]):
+            formv = a_.d["value"]
             break
-        if formv == Lin(c=6):
-            seen6 = True
-            good = it[1] == col
-        else:
-            seen_other = True
-            good = it[1] == Lin()
-        mat = None
-        if outer and isinstance(outer[0].d["iter"], tuple) and outer[0].d["iter"][:1] == ("range",):
-            hi = outer[0].d["iter"][2]
-            at = the_atom(hi)
-            if isinstance(at, tuple) and at[0] == "dim" and at[2] == 1:
-                mat = at[1]
-        good = good and mat is not None and it[2] == lin(("len", mat)) and it[3] == Lin(c=1) and outer[0].d["iter"][1] == Lin()
-        if not good:
-            ok, det = False, {"form": show(formv), "rows": show(it), "column": show(col)}
-    ok = ok and seen6 and seen_other
-    ctx.check(ok, "wtdmig: form 6 writes rows col..n-1 of each column (one of each (i,j)/(j,i) pair)", rows[0].node if rows else wd, det)
+        if not M.is_int_const(formv) or not outer or not (isinstance(outer[0].d["iter"], tuple) and outer[0].d["iter"][:1] == ("range",)):
+            v.unknown({"form": show(formv), "rows": show(it)})
+            continue
+        at = the_atom(outer[0].d["iter"][2])
+        mat = at[1] if isinstance(at, tuple) and at[0] == "dim" and at[2] == 1 else None
+        if mat is None or outer[0].d["iter"][1] != Lin() or it[3] != Lin(c=1):
+            v.unknown({"columns": show(outer[0].d["iter"]), "rows": show(it)})
+            continue
+        want = col if formv == Lin(c=6) else Lin()
+        seen6 = seen6 or formv == Lin(c=6)
+        seen_other = seen_other or formv != Lin(c=6)
+        if it[1] != want or it[2] != lin(("len", mat)):
+            d_ = lin(it[1]) - lin(want)
+            if (it[1] != want and (d_.is_const() or isinstance(col, Lin))) or (it[2] - lin(("len", mat))).is_const():
+                v.bad({"form": show(formv), "rows written": show(it), "column": show(col)})
+            else:
+                v.unknown({"form": show(formv), "rows written": show(it), "column": show(col)})
+    if v.v is True and not (seen6 and seen_other):
+        v.unknown("row loops of the symmetric and of the general form")
+    v.report(ctx, "wtdmig: form 6 writes rows col..n-1 of each column (one of each (i,j)/(j,i) pair)", wd)
     # D exponent for the double-precision types
     terms = [e for e in E.events("call") if is_write(e) and len(e.loops) >= 3 and isinstance(e.d["args"][0], S)]
-    ok, det = bool(terms), None
+    v = V()
     kinds = set()
     for e in terms:
+        v.at(e.node)
         mt = None
-        for a in reversed([x for x in E.events("assign") if x.d["name"] == "mtype" and x.seq < e.seq and set(x.facts) <= set(e.facts)]):
-            mt = a.d["value"]
+        for a_ in reversed([x for x in E.events("assign") if x.d["name"] == "mtype" and x.seq < e.seq and set(x.facts) <= set(e.facts)]):
+            mt = a_.d["value"]
             break
         if not M.is_int_const(mt):
-            ok, det = False, f"matrix type {show(mt)}"
+            v.unknown(f"matrix type {show(mt)}")
             continue
         k = M.ival(mt)
-        vals = [x for x in e.d["args"][0].p if x[0] == "fv" and not isinstance(x[2], Lin) and (x[1] or "").endswith("s") and _has_float(x[2])]
-        if len(vals) != 1:
-            ok, det = False, repr(e.d["args"][0])
+        vals = [x for x in e.d["args"][0].p if x[0] == "fv" and not isinstance(x[2], Lin) and _has_float(x[2])]
+        inline_specs = []
+        _float_specs(S(tuple(x for x in e.d["args"][0].p if x[0] == "fv" and isinstance(M.parse_spec(x[1] or ""), M.Spec)
+                             and M.parse_spec(x[1] or "").type in ("e", "E", "f", "F", "g", "G"))), inline_specs, None)
+        if len(vals) == 1 and not inline_specs:
+            val = vals[0][2]
+            rep = isinstance(val, tuple) and val[:2] == ("op", ".replace") and len(val[2]) == 3
+            if rep and not (val[2][1] == S((("lit", "E"),)) and val[2][2] == S((("lit", "D"),))):
+                v.unknown(show(val))
+                continue
+            inner = val[2][0] if rep else val
+            specs = []
+            _float_specs(inner if isinstance(inner, S) else None, specs, None)
+        elif inline_specs and not vals:
+            rep = False
+            specs = inline_specs
+        else:
+            v.unknown(repr(e.d["args"][0]))
             continue
-        v = vals[0][2]
-        rep = isinstance(v, tuple) and v[:2] == ("op", ".replace") and len(v[2]) == 3 and v[2][1] == S((("lit", "E"),)) and v[2][2] == S((("lit", "D"),))
-        inner = v[2][0] if rep else v
-        specs = []
-        _float_specs(inner if isinstance(inner, S) else None, specs, None)
-        upperE = bool(specs) and all(sp.type == "E" for sp, *_ in specs)
-        nparts = len(specs)
-        good = (rep == (k % 2 == 0)) and upperE and nparts == (2 if k >= 3 else 1)
+        if not specs:
+            v.unknown(repr(e.d["args"][0]))
+            continue
         kinds.add(k)
-        if not good:
-            ok, det = False, {"mtype": k, "term": show(v)}
-    ok = ok and kinds == {1, 2, 3, 4}
-    ctx.check(ok, "wtdmig: double-precision types (even mtype) use the D exponent", terms[0].node if terms else wd, det)
+        letters = {("D" if rep and sp.type == "E" else sp.type) for sp, *_ in specs}
+        want_letter = "D" if k % 2 == 0 else "E"
+        if letters != {want_letter} and not (letters == {"e"} and want_letter == "E"):
+            v.bad({"mtype": k, "exponent letter written": sorted(letters), "expected": want_letter})
+        if len(specs) != (2 if k >= 3 else 1):
+            v.bad({"mtype": k, "numbers written per term": len(specs)})
+    if v.v is True and kinds != {1, 2, 3, 4}:
+        v.unknown({"matrix types seen": sorted(kinds)})
+    v.report(ctx, "wtdmig: double-precision types (even mtype) use the D exponent", wd)
 
 
 def _excludes(facts, x, k):
@@ -1087,7 +1337,6 @@ def _nasints(ctx):
     fn = ctx.src.func(BULK, q)
     E = engine(ctx, BULK, q)
     ints = ("sym", "ints")
-    N = lin(("len", ints))
     fm = [e for e in E.events("format") if e.d.get("items") is not None]
     by_node = {}
     for e in fm:
@@ -1114,9 +1363,6 @@ def _nasints(ctx):
             k += 1
         labels[id(e.node)] = label
     for nid, evs in by_node.items():
-        for e in evs[:1]:
-            pass
-        # all paths through the same call
         worst = None
         for e in evs:
             nf, na = e.d.get("nfields"), e.d.get("nargs")
@@ -1126,21 +1372,29 @@ def _nasints(ctx):
         _count_check(ctx, q, worst or evs[0], labels[nid])
     # line capacity: a continuation line holds the blank head + at most 8 integers, the first line at most 10 - start
     start = lin(("sym", "start"))
-    okc, det, node = True, None, fn
+    v = V()
     for e in fm:
         items = e.d["items"]
         nints = M.count_fields([it for it in items if not (it[0] == "field" and it[1] is not None and it[1].type == "s")])
         heads = [it for it in items if it[0] == "field" and it[1] is not None and it[1].type == "s"]
-        widths_ok = all(it[1] is not None and it[1].width == 8 for it in _all_fields(items))
+        fields = list(_all_fields(items))
         text = "".join(it[1] for it in items if it[0] == "text")
         cap = Lin(c=8) if heads else (Lin(c=10) - start)
-        if nints is None or not widths_ok or text != "\n" or len(heads) > 1 or (heads and items[0] is not heads[0]):
-            okc, det, node = False, {"template": repr(e.d["template"])}, e.node
+        if nints is None or any(it[1] is None or it[1].width is None for it in fields) or any(it[0] not in ("text", "field", "rep") for it in items):
+            v.unknown({"template": repr(e.d["template"])}, e.node)
+            continue
+        if any(it[1].width != 8 for it in fields) or text != "\n" or len(heads) > 1 or (heads and items[0] is not heads[0]):
+            v.bad({"template": repr(e.d["template"])}, e.node)
             continue
         if not M.proves_ge0(cap - nints, e.facts):
-            okc, node = False, e.node
-            det = {"integers on the line": show(nints), "capacity": show(cap)}
-    ctx.check(okc, "wtnasints: every line is made of 8-column fields, the first holds at most 10 - start integers, a continuation line a blank head + at most 8", node, det)
+            d_ = cap - nints
+            syms = M.free_symbols(d_)
+            w = M.find_witness(syms, e.facts, lambda a_, d_=d_: (M.lin_eval(d_, a_) is not None and M.lin_eval(d_, a_) < 0), limit=30) if len(syms) <= 3 else None
+            if w is not None:
+                v.bad({"integers on the line": show(nints), "capacity": show(cap), "exceeded for": {show(k_): x for k_, x in w.items()}}, e.node)
+            else:
+                v.unknown({"integers on the line": show(nints), "capacity": show(cap)}, e.node)
+    v.report(ctx, "wtnasints: every line is made of 8-column fields, the first holds at most 10 - start integers, a continuation line a blank head + at most 8", fn)
     # tiling: the slices written follow each other and start at 0
     _tiling(ctx, E, q, ints, fn)
 
@@ -1153,11 +1407,22 @@ def _all_fields(items):
             yield from _all_fields(it[1])
 
 
+def _differs(d, facts, limit=24):
+    """is the linear form d non-zero for some values the facts allow?  True (with witness) / False (proved zero) / None"""
+    if M.proves_zero(d, facts):
+        return False, None
+    syms = M.free_symbols(d)
+    w = M.find_witness(syms, facts, lambda a_: M.lin_eval(d, a_) not in (None, 0), limit=limit) if len(syms) <= 3 else None
+    if w is not None:
+        return True, {show(k): x for k, x in w.items()}
+    return None, None
+
+
 def _tiling(ctx, E, q, seq, fn):
     """each path writes consecutive slices seq[a:b] whose bounds chain: first a = 0, next a = previous b (through loops by induction on the
     loop counter)"""
     N = lin(("len", seq))
-    ok, det, node = True, None, fn
+    v = V()
     npaths = 0
     for s in E.finals:
         if s.status not in ("run", "return"):
@@ -1168,33 +1433,37 @@ def _tiling(ctx, E, q, seq, fn):
         for e in s.events:
             if e.kind == "while":
                 # induction hypothesis: at the head of the loop the counter equals the position written so far
-                cnt = [nm for nm, v in e.d["pre"].items() if isinstance(v, Lin) and v == wp]
+                cnt = [nm for nm, x in e.d["pre"].items() if isinstance(x, Lin) and x == wp]
                 if cnt:
                     loop_entry[e.d["loop"]] = cnt[0]
                     wp = lin(e.d["env"][cnt[0]])
             elif e.kind == "loopend" and e.d["loop"] in loop_entry:
                 nm = loop_entry[e.d["loop"]]
-                if lin(e.d["env"][nm]) != wp:
-                    ok, node = False, e.node
-                    det = {"loop counter after one pass": show(e.d["env"][nm]), "written up to": show(wp)}
+                r, w = _differs(lin(e.d["env"][nm]) - wp, e.facts)
+                if r is True:
+                    v.bad({"loop counter after one pass": show(e.d["env"][nm]), "written up to": show(wp), "differ for": w}, e.node)
+                elif r is None:
+                    v.unknown({"loop counter after one pass": show(e.d["env"][nm]), "written up to": show(wp)}, e.node)
             elif e.kind == "loopexit" and e.d["loop"] in loop_entry:
                 wp = lin(e.d["env"][loop_entry[e.d["loop"]]])
             elif e.kind == "format" and e.d.get("items") is not None:
                 star = [a for a in e.d["args"] if isinstance(a, tuple) and a[:1] == ("star",)]
                 if not star:
                     continue
-                v = star[0][1]
-                if v == seq:
+                x = star[0][1]
+                if x == seq:
                     a, b = Lin(), N
-                elif isinstance(v, tuple) and v[:1] == ("slice",) and M.origin(v[1]) == seq and v[4] == Lin(c=1):
-                    a = lin(v[2])
-                    b = N if v[3] == ("k", None) else M.mk_min([lin(v[3]), N], e.facts)
+                elif isinstance(x, tuple) and x[:1] == ("slice",) and M.origin(x[1]) == seq and x[4] == Lin(c=1):
+                    a = lin(x[2])
+                    b = N if x[3] == ("k", None) else M.mk_min([lin(x[3]), N], e.facts)
                 else:
-                    ok, det, node = False, {"values written": show(v)}, e.node
+                    v.unknown({"values written": show(x)}, e.node)
                     continue
-                if a != wp:
-                    ok, node = False, e.node
-                    det = {"slice starts at": show(a), "written up to": show(wp)}
+                r, w = _differs(a - wp, e.facts)
+                if r is True:
+                    v.bad({"slice starts at": show(a), "written up to": show(wp), "differ for": w}, e.node)
+                elif r is None:
+                    v.unknown({"slice starts at": show(a), "written up to": show(wp)}, e.node)
                 wp = b
         # a path that stops early must have nothing left:  facts imply wp >= N
         if wp != N:
@@ -1202,11 +1471,12 @@ def _tiling(ctx, E, q, seq, fn):
             if not (lo is not None and lo >= 0):
                 syms = M.free_symbols(wp - N)
                 w = M.find_witness(syms, s.facts, lambda a_: (M.lin_eval(wp - N, a_) is not None and M.lin_eval(wp - N, a_) < 0), limit=30) if len(syms) <= 3 else None
-                # havoc symbols over-approximate the loop: only report when no loop symbol is involved
+                # loop symbols over-approximate what the loop can produce: only report when none is involved
                 if w is not None and not any("@" in show(k) for k in w):
-                    ok, node = False, fn
-                    det = {"written up to": show(wp), "length": show(N), "elements left for": {show(k): v for k, v in w.items()}}
-    ctx.check(ok and npaths > 0, f"{q}: the slices written follow each other without gap or overlap, starting at element 0", node, det)
+                    v.bad({"written up to": show(wp), "length": show(N), "elements left for": {show(k): x for k, x in w.items()}})
+    if npaths == 0:
+        v.unknown("no path reaches the end")
+    v.report(ctx, f"{q}: the slices written follow each other without gap or overlap, starting at element 0", fn)
 
 
 def _thru(ctx, q, seqname):
@@ -1217,8 +1487,7 @@ def _thru(ctx, q, seqname):
     whiles = [e for e in E.events("while")]
     if not whiles:
         raise AnchorError(f"{q}: item loop")
-    ok, det, node = True, None, whiles[0].node
-    npass = 0
+    v = V().at(whiles[0].node)
     runs = singles = 0
     for s_end in E.events("loopend"):
         lid = s_end.d["loop"]
@@ -1226,48 +1495,45 @@ def _thru(ctx, q, seqname):
         if not w or len(s_end.loops) != 1:
             continue
         w = w[0]
-        # the cursor: the loop variable that indexes the sequence
         body = [e for e in E.events() if lid in e.loops and e.seq < s_end.seq and set(e.facts) <= set(s_end.facts)]
         emitted = []
         for e in body:
             vals = []
-            if e.kind == "call" and e.d["attr"] in ("append", "extend"):
+            if e.kind == "call" and e.d["attr"] in ("append", "extend", "write"):
                 for a in e.d["args"]:
                     vals.extend(_seq_elems(a, seq))
             if vals:
                 emitted.append((e, vals))
         if not emitted:
             continue
-        npass += 1
         idxs = [i for _, vs in emitted for i in vs]
         first, last = idxs[0], idxs[-1]
         thru = any(_has_thru(a) for e, _ in emitted for a in e.d["args"])
-        cursor = [nm for nm, v in w.d["env"].items() if lin(v) == first]
+        # the cursor: the loop variable whose value at the head of the pass is the first index written
+        cursor = [nm for nm, x in w.d["env"].items() if lin(x) == first]
         if not cursor:
-            ok, det, node = False, {"first element written": show(first)}, emitted[0][0].node
+            v.unknown({"first element written": show(first)}, emitted[0][0].node)
             continue
         nm = cursor[0]
         new = lin(s_end.d["env"][nm])
-        covered_to = last if (thru or len(idxs) > 1) else first
         if thru:
             runs += 1
         else:
             singles += 1
-        want = covered_to + 1
-        d = new - want
-        if not M.proves_zero(d, s_end.facts):
-            syms = M.free_symbols(d)
-            wit = M.find_witness(syms, s_end.facts, lambda a_: M.lin_eval(d, a_) not in (None, 0), limit=12) if len(syms) <= 3 else None
-            if wit is not None:
-                ok, node = False, emitted[-1][0].node
-                det = {"written": f"{show(first)}" + (f" THRU {show(last)}" if thru else ""), "cursor advanced to": show(new), "should be": show(want),
-                       "differ for": {show(k): v for k, v in wit.items()}, "consequence": "elements between are never written" if True else ""}
-            else:
-                ctx.error(f"{q}: cursor update", s_end.node, {"cursor advanced to": show(new), "should be": show(want)})
-        if thru and first == last:
-            ok, det = False, {"THRU item": show(first)}
-    ok = ok and runs >= 1 and singles >= 1
-    ctx.check(ok, f"{q}: each pass writes ids[start] (or ids[start] THRU ids[end]) and moves the cursor just past what it wrote, so no id is skipped or repeated", node, det)
+        if not thru and len(idxs) > 1:
+            v.unknown({"elements written in one pass": [show(i) for i in idxs]}, emitted[0][0].node)
+            continue
+        want = (last if thru else first) + 1
+        r, wit = _differs(new - want, s_end.facts, limit=12)
+        if r is True:
+            v.bad({"written": f"{seqname}[{show(first)}]" + (f" THRU {seqname}[{show(last)}]" if thru else ""), "cursor advanced to": show(new), "should be": show(want),
+                   "differ for": wit, "consequence": "the elements in between are never written (or written twice)"}, emitted[-1][0].node)
+        elif r is None:
+            v.unknown({"cursor advanced to": show(new), "should be": show(want)}, s_end.node)
+    if v.v is True and not (runs >= 1 and singles >= 1):
+        v.unknown({"passes with THRU": runs, "passes with a single element": singles})
+    v.report(ctx, f"{q}: each pass writes {seqname}[start] (or {seqname}[start] THRU {seqname}[end]) and moves the cursor just past what it wrote, "
+                  "so no element is skipped or repeated", fn)
 
 
 def _seq_elems(v, seq):
